@@ -1,11 +1,25 @@
 (* C04 — the hash-join probe / drain barrier (execution/operators/hash_join/mod.rs: poll_execute,
    poll_finalize_execute) for join types that need a drain phase (LEFT / FULL / SEMI / ANTI / MARK),
    N probe partitions, every critical section of `HashJoinOperatorState::shared` one atomic step.
-   Definitions only.  The build side is abstracted to its last event: the last hash inserter sets
-   scan_ready and wakes pending_probers and pending_drainers (`h_build_done`).
+   Definitions only.  Both sides are modelled: NB build partitions (poll_finalize_push: collect ->
+   fetch_sub on the row collection's `remaining` -> last one inits the directory and sets
+   hash_inserts_ready -> every partition inserts its hashes -> the last inserter sets scan_ready and
+   wakes pending_probers AND pending_drainers) and NP probe partitions, in any arrival order.
+
+   Phase of one build partition (BuildFinalizePhase + position inside poll_finalize_push):
+     BColl      still collecting (poll_push), has not called finish_build
+     BMid l     finish_build done (atomic fetch_sub; l = it was the last), shared lock not yet taken
+     BParked    stored in pending_hash_inserters, Pending (phase InsertingHashes)
+     BIns       phase InsertingHashes, runnable: next poll locks and tests hash_inserts_ready
+     BProc      process_hashes outside the lock
+     BDone      Finalized
+     BErr       a dec_by_one / fetch_sub underflow
 
    Phase of one probe partition:
-     HProbe        Probing, local scan_ready = false, runnable: next poll locks and tests scan_ready
+     HProbe        Probing, local scan_ready = false, runnable: the next call is either poll_execute (locks
+                   and tests scan_ready) or — when no batch ever reaches the join in this partition
+                   (empty input: the stack goes Fin(j-1) -> Fin(j) without Exec(j)) — directly
+                   poll_finalize_execute
      HParkedScan   stored in pending_probers, Pending
      HScan         Probing with local scan_ready = true: probes its input batches (no shared state)
      HDrainChk     poll_finalize_execute done (remaining_probers decremented; NeedsDrain); Draining,
@@ -26,98 +40,150 @@
                    answered Exhausted before it ran.  With c83fc4e4d the cleared AbandonOperator is
                    re-created (C04_stack_exhausted_finalizes_all_upstream): rule h_abandon_again.
    `ab`: early exhaustion can happen (a LIMIT / EXISTS above the join);
-   `lose`: a pending abandon can be lost (previous stack versions; false for the current source). *)
+   `lose`: a pending abandon can be lost (previous stack versions; false for the current source);
+   `wd`: the last hash inserter also wakes pending_drainers (true for the current source). *)
 From Coq Require Import List Arith Bool.
 From GV Require Import lib.Lts.
 Import ListNotations.
 
+Inductive bph := BColl | BMid (last : bool) | BParked | BIns | BProc | BDone | BErr.
 Inductive hph := HProbe | HParkedScan | HScan | HDrainChk | HParkedDrain | HDraining | HDone | HAbandoning | HAbandoned | HLost | HErr.
 
 Record hst := {
+  bps : list bph;
+  bremaining : nat;   (* PartitionedRowCollection remaining: AtomicUsize (fetch_sub) *)
+  hready : bool;      (* shared.hash_inserts_ready *)
+  rem_ins : nat;      (* shared.remaining_hash_inserters *)
   hps : list hph;
   sready : bool;      (* shared.scan_ready *)
   dready : bool;      (* shared.drain_ready *)
   rem_prob : nat      (* shared.remaining_probers *)
 }.
 
+Definition wake_ins (p : bph) : bph := match p with BParked => BIns | q => q end.
+Definition ins_pollable (p : bph) : bool := match p with BIns | BParked => true | _ => false end.
+Definition can_finalize (p : hph) : bool := match p with HProbe | HScan => true | _ => false end.
 Definition wake_probers (p : hph) : hph := match p with HParkedScan => HProbe | q => q end.
 Definition wake_drainers (p : hph) : hph := match p with HParkedDrain => HDrainChk | q => q end.
 Definition scan_pollable (p : hph) : bool := match p with HProbe | HParkedScan => true | _ => false end.
 Definition drain_pollable (p : hph) : bool := match p with HDrainChk | HParkedDrain => true | _ => false end.
 
-Inductive hstep (ab lose : bool) : hst -> hst -> Prop :=
-(* build side: last inserter: scan_ready = true; pending_probers.wake_all(); pending_drainers.wake_all() *)
-| h_build_done s :
-    sready s = false ->
-    hstep ab lose s {| hps := map wake_drainers (map wake_probers (hps s)); sready := true; dready := dready s;
-                  rem_prob := rem_prob s |}
+Inductive hstep (ab lose wd : bool) : hst -> hst -> Prop :=
+(* ---- build side: poll_finalize_push ---- *)
+(* Collecting: finish_build = fetch_sub(1) on `remaining`, outside the shared lock *)
+| b_fetch_sub i s :
+    nth_error (bps s) i = Some BColl -> 0 < bremaining s ->
+    hstep ab lose wd s {| bps := upd (bps s) i (BMid (bremaining s =? 1)); bremaining := bremaining s - 1; hready := hready s; rem_ins := rem_ins s; hps := hps s; sready := sready s; dready := dready s; rem_prob := rem_prob s |}
+| b_fetch_underflow i s :
+    nth_error (bps s) i = Some BColl -> bremaining s = 0 ->
+    hstep ab lose wd s {| bps := upd (bps s) i BErr; bremaining := bremaining s; hready := hready s; rem_ins := rem_ins s; hps := hps s; sready := sready s; dready := dready s; rem_prob := rem_prob s |}
+(* last builder: init_directory; [lock] hash_inserts_ready = true; pending_hash_inserters.wake_all(); continue *)
+| b_last_lock i s :
+    nth_error (bps s) i = Some (BMid true) ->
+    hstep ab lose wd s {| bps := upd (map wake_ins (bps s)) i BIns; bremaining := bremaining s; hready := true; rem_ins := rem_ins s; hps := hps s; sready := sready s; dready := dready s; rem_prob := rem_prob s |}
+(* not last: [lock] hash_inserts_ready ? continue : store waker, Pending *)
+| b_nonlast_ready i s :
+    nth_error (bps s) i = Some (BMid false) -> hready s = true ->
+    hstep ab lose wd s {| bps := upd (bps s) i BIns; bremaining := bremaining s; hready := hready s; rem_ins := rem_ins s; hps := hps s; sready := sready s; dready := dready s; rem_prob := rem_prob s |}
+| b_nonlast_park i s :
+    nth_error (bps s) i = Some (BMid false) -> hready s = false ->
+    hstep ab lose wd s {| bps := upd (bps s) i BParked; bremaining := bremaining s; hready := hready s; rem_ins := rem_ins s; hps := hps s; sready := sready s; dready := dready s; rem_prob := rem_prob s |}
+(* InsertingHashes: [lock] !hash_inserts_ready -> store waker, Pending; else unlock, process_hashes *)
+| b_ins_ready i p s :
+    nth_error (bps s) i = Some p -> ins_pollable p = true -> hready s = true ->
+    hstep ab lose wd s {| bps := upd (bps s) i BProc; bremaining := bremaining s; hready := hready s; rem_ins := rem_ins s; hps := hps s; sready := sready s; dready := dready s; rem_prob := rem_prob s |}
+| b_ins_park i p s :
+    nth_error (bps s) i = Some p -> ins_pollable p = true -> hready s = false ->
+    hstep ab lose wd s {| bps := upd (bps s) i BParked; bremaining := bremaining s; hready := hready s; rem_ins := rem_ins s; hps := hps s; sready := sready s; dready := dready s; rem_prob := rem_prob s |}
+(* after process_hashes: [lock] remaining_hash_inserters.dec_by_one()?; if 0 { scan_ready = true;
+   pending_probers.wake_all(); pending_drainers.wake_all() }; Finalized *)
+| b_proc_done_last i s :
+    nth_error (bps s) i = Some BProc -> rem_ins s = 1 ->
+    hstep ab lose wd s {| bps := upd (bps s) i BDone; bremaining := bremaining s; hready := hready s; rem_ins := 0; hps := (if wd then map wake_drainers (map wake_probers (hps s)) else map wake_probers (hps s)); sready := true; dready := dready s; rem_prob := rem_prob s |}
+| b_proc_done i s :
+    nth_error (bps s) i = Some BProc -> 1 < rem_ins s ->
+    hstep ab lose wd s {| bps := upd (bps s) i BDone; bremaining := bremaining s; hready := hready s; rem_ins := rem_ins s - 1; hps := hps s; sready := sready s; dready := dready s; rem_prob := rem_prob s |}
+| b_proc_err i s :
+    nth_error (bps s) i = Some BProc -> rem_ins s = 0 ->
+    hstep ab lose wd s {| bps := upd (bps s) i BErr; bremaining := bremaining s; hready := hready s; rem_ins := rem_ins s; hps := hps s; sready := sready s; dready := dready s; rem_prob := rem_prob s |}
+(* ---- probe side ---- *)
 (* poll_execute, Probing, local scan_ready false: [lock] test shared.scan_ready *)
 | h_scan_ready i p s :
     nth_error (hps s) i = Some p -> scan_pollable p = true -> sready s = true ->
-    hstep ab lose s {| hps := upd (hps s) i HScan; sready := sready s; dready := dready s; rem_prob := rem_prob s |}
+    hstep ab lose wd s {| bps := bps s; bremaining := bremaining s; hready := hready s; rem_ins := rem_ins s; hps := upd (hps s) i HScan; sready := sready s; dready := dready s; rem_prob := rem_prob s |}
 | h_scan_park i p s :
     nth_error (hps s) i = Some p -> scan_pollable p = true -> sready s = false ->
-    hstep ab lose s {| hps := upd (hps s) i HParkedScan; sready := sready s; dready := dready s; rem_prob := rem_prob s |}
-(* poll_finalize_execute (input exhausted): Draining; [lock] remaining_probers.dec_by_one()?;
+    hstep ab lose wd s {| bps := bps s; bremaining := bremaining s; hready := hready s; rem_ins := rem_ins s; hps := upd (hps s) i HParkedScan; sready := sready s; dready := dready s; rem_prob := rem_prob s |}
+(* poll_finalize_execute (input exhausted; possibly before poll_execute was ever called): Draining; [lock] remaining_probers.dec_by_one()?;
    if 0 { drain_ready = true; pending_drainers.wake_all() }; NeedsDrain *)
-| h_finalize_last i s :
-    nth_error (hps s) i = Some HScan -> rem_prob s = 1 ->
-    hstep ab lose s {| hps := upd (map wake_drainers (hps s)) i HDrainChk; sready := sready s; dready := true;
+| h_finalize_last i p s :
+    nth_error (hps s) i = Some p -> can_finalize p = true -> rem_prob s = 1 ->
+    hstep ab lose wd s {| bps := bps s; bremaining := bremaining s; hready := hready s; rem_ins := rem_ins s; hps := upd (map wake_drainers (hps s)) i HDrainChk; sready := sready s; dready := true;
                   rem_prob := 0 |}
-| h_finalize i s :
-    nth_error (hps s) i = Some HScan -> 1 < rem_prob s ->
-    hstep ab lose s {| hps := upd (hps s) i HDrainChk; sready := sready s; dready := dready s;
+| h_finalize i p s :
+    nth_error (hps s) i = Some p -> can_finalize p = true -> 1 < rem_prob s ->
+    hstep ab lose wd s {| bps := bps s; bremaining := bremaining s; hready := hready s; rem_ins := rem_ins s; hps := upd (hps s) i HDrainChk; sready := sready s; dready := dready s;
                   rem_prob := rem_prob s - 1 |}
-| h_finalize_err i s :        (* "Attempted to decrement 0" *)
-    nth_error (hps s) i = Some HScan -> rem_prob s = 0 ->
-    hstep ab lose s {| hps := upd (hps s) i HErr; sready := sready s; dready := dready s; rem_prob := rem_prob s |}
+| h_finalize_err i p s :        (* "Attempted to decrement 0" *)
+    nth_error (hps s) i = Some p -> can_finalize p = true -> rem_prob s = 0 ->
+    hstep ab lose wd s {| bps := bps s; bremaining := bremaining s; hready := hready s; rem_ins := rem_ins s; hps := upd (hps s) i HErr; sready := sready s; dready := dready s; rem_prob := rem_prob s |}
 (* poll_execute, Draining, local drain_ready false: [lock] test drain_ready && scan_ready *)
 | h_drain_ready i p s :
     nth_error (hps s) i = Some p -> drain_pollable p = true -> dready s && sready s = true ->
-    hstep ab lose s {| hps := upd (hps s) i HDraining; sready := sready s; dready := dready s; rem_prob := rem_prob s |}
+    hstep ab lose wd s {| bps := bps s; bremaining := bremaining s; hready := hready s; rem_ins := rem_ins s; hps := upd (hps s) i HDraining; sready := sready s; dready := dready s; rem_prob := rem_prob s |}
 | h_drain_park i p s :
     nth_error (hps s) i = Some p -> drain_pollable p = true -> dready s && sready s = false ->
-    hstep ab lose s {| hps := upd (hps s) i HParkedDrain; sready := sready s; dready := dready s; rem_prob := rem_prob s |}
+    hstep ab lose wd s {| bps := bps s; bremaining := bremaining s; hready := hready s; rem_ins := rem_ins s; hps := upd (hps s) i HParkedDrain; sready := sready s; dready := dready s; rem_prob := rem_prob s |}
 | h_drain_done i s :
     nth_error (hps s) i = Some HDraining ->
-    hstep ab lose s {| hps := upd (hps s) i HDone; sready := sready s; dready := dready s; rem_prob := rem_prob s |}
+    hstep ab lose wd s {| bps := bps s; bremaining := bremaining s; hready := hready s; rem_ins := rem_ins s; hps := upd (hps s) i HDone; sready := sready s; dready := dready s; rem_prob := rem_prob s |}
 (* early exhaustion by a downstream operator while this partition is still probing / draining *)
 | h_abandon i s :
     ab = true -> nth_error (hps s) i = Some HScan ->
-    hstep ab lose s {| hps := upd (hps s) i HAbandoning; sready := sready s; dready := dready s; rem_prob := rem_prob s |}
+    hstep ab lose wd s {| bps := bps s; bremaining := bremaining s; hready := hready s; rem_ins := rem_ins s; hps := upd (hps s) i HAbandoning; sready := sready s; dready := dready s; rem_prob := rem_prob s |}
 | h_abandon_draining i s :
     ab = true -> nth_error (hps s) i = Some HDraining ->
-    hstep ab lose s {| hps := upd (hps s) i HDone; sready := sready s; dready := dready s; rem_prob := rem_prob s |}
+    hstep ab lose wd s {| bps := bps s; bremaining := bremaining s; hready := hready s; rem_ins := rem_ins s; hps := upd (hps s) i HDone; sready := sready s; dready := dready s; rem_prob := rem_prob s |}
 (* AbandonOperator: poll_finalize_execute; its NeedsDrain answer is ignored *)
 | h_abandon_fin_last i s :
     nth_error (hps s) i = Some HAbandoning -> rem_prob s = 1 ->
-    hstep ab lose s {| hps := upd (map wake_drainers (hps s)) i HAbandoned; sready := sready s; dready := true;
+    hstep ab lose wd s {| bps := bps s; bremaining := bremaining s; hready := hready s; rem_ins := rem_ins s; hps := upd (map wake_drainers (hps s)) i HAbandoned; sready := sready s; dready := true;
                        rem_prob := 0 |}
 | h_abandon_fin i s :
     nth_error (hps s) i = Some HAbandoning -> 1 < rem_prob s ->
-    hstep ab lose s {| hps := upd (hps s) i HAbandoned; sready := sready s; dready := dready s;
+    hstep ab lose wd s {| bps := bps s; bremaining := bremaining s; hready := hready s; rem_ins := rem_ins s; hps := upd (hps s) i HAbandoned; sready := sready s; dready := dready s;
                        rem_prob := rem_prob s - 1 |}
 | h_abandon_fin_err i s :
     nth_error (hps s) i = Some HAbandoning -> rem_prob s = 0 ->
-    hstep ab lose s {| hps := upd (hps s) i HErr; sready := sready s; dready := dready s; rem_prob := rem_prob s |}
+    hstep ab lose wd s {| bps := bps s; bremaining := bremaining s; hready := hready s; rem_ins := rem_ins s; hps := upd (hps s) i HErr; sready := sready s; dready := dready s; rem_prob := rem_prob s |}
 (* nested exhaustion (c83fc4e4d): a second operator further down answers Exhausted while the
    AbandonOperator is pending: the stack is cleared and the instruction re-created: nothing changes *)
 | h_abandon_again i s :
     ab = true -> nth_error (hps s) i = Some HAbandoning ->
-    hstep ab lose s {| hps := upd (hps s) i HAbandoning; sready := sready s; dready := dready s; rem_prob := rem_prob s |}
+    hstep ab lose wd s {| bps := bps s; bremaining := bremaining s; hready := hready s; rem_ins := rem_ins s; hps := upd (hps s) i HAbandoning; sready := sready s; dready := dready s; rem_prob := rem_prob s |}
 (* previous stack versions: the pending AbandonOperator is dropped by a second Exhausted further down *)
 | h_abandon_lost i s :
     lose = true -> nth_error (hps s) i = Some HAbandoning ->
-    hstep ab lose s {| hps := upd (hps s) i HLost; sready := sready s; dready := dready s; rem_prob := rem_prob s |}.
+    hstep ab lose wd s {| bps := bps s; bremaining := bremaining s; hready := hready s; rem_ins := rem_ins s; hps := upd (hps s) i HLost; sready := sready s; dready := dready s; rem_prob := rem_prob s |}.
 
 (* create_partition_push_states: remaining_probers.set(partitions) *)
-Definition hinit (n : nat) : hst :=
-  {| hps := repeat HProbe n; sready := false; dready := false; rem_prob := n |}.
+(* remaining_hash_inserters.set(partitions); `remaining` = number of build partitions *)
+Definition hinit (nb n : nat) : hst :=
+  {| bps := repeat BColl nb; bremaining := nb; hready := false; rem_ins := nb;
+     hps := repeat HProbe n; sready := false; dready := false; rem_prob := n |}.
 
-Inductive hreach (ab lose : bool) (n : nat) : hst -> Prop :=
-| hr_init : hreach ab lose n (hinit n)
-| hr_step s s' : hreach ab lose n s -> hstep ab lose s s' -> hreach ab lose n s'.
+Inductive hreach (ab lose wd : bool) (nb n : nat) : hst -> Prop :=
+| hr_init : hreach ab lose wd nb n (hinit nb n)
+| hr_step s s' : hreach ab lose wd nb n s -> hstep ab lose wd s s' -> hreach ab lose wd nb n s'.
 
+Definition is_bcoll p := match p with BColl => true | _ => false end.
+Definition is_bmid p := match p with BMid _ => true | _ => false end.
+Definition is_bmidlast p := match p with BMid true => true | _ => false end.
+Definition is_bparked p := match p with BParked => true | _ => false end.
+Definition is_bins p := match p with BIns => true | _ => false end.
+Definition is_bproc p := match p with BProc => true | _ => false end.
+Definition is_bdone p := match p with BDone => true | _ => false end.
+Definition is_berr p := match p with BErr => true | _ => false end.
 Definition is_hprobe p := match p with HProbe => true | _ => false end.
 Definition is_hpscan p := match p with HParkedScan => true | _ => false end.
 Definition is_hscan p := match p with HScan => true | _ => false end.
@@ -132,4 +198,5 @@ Definition is_herr p := match p with HErr => true | _ => false end.
 
 (* every partition's pipeline is through with the join *)
 Definition hall_done (s : hst) : Prop :=
+  count is_bdone (bps s) = length (bps s) /\
   count is_hdone (hps s) + count is_haband (hps s) + count is_hlost (hps s) = length (hps s).
